@@ -213,8 +213,12 @@ func (e *Exec) staticCall(ins ssa.Instruction, fn *ssa.Function, args []Value, b
 			e.safe("nil", st, Ne(pv.Addr, ConstI(0, Ref)), ins.Pos())
 		}
 	}
-	if v, ok := e.specialCall(ins, key, fn, args, st); ok {
-		return v
+	if isSpecialKey(key) {
+		e.siteAsserts(ins, key, args, st, "before", nil)
+		if v, ok := e.specialCall(ins, key, fn, args, st); ok {
+			e.siteAsserts(ins, key, args, st, "after", v)
+			return v
+		}
 	}
 	if isMutexKey(key) {
 		e.siteAsserts(ins, key, args, st, "before", nil)
@@ -750,6 +754,10 @@ func (e *Exec) siteAsserts(ins ssa.Instruction, callee string, args []Value, st 
 		default:
 			env.results = []Value{r}
 		}
+		if sa.LetName != "" {
+			root.lets[sa.LetName] = env.eval(sa.Clause.Expr)
+			continue
+		}
 		if sa.Assume {
 			env.polarity = polAssume
 			e.ctx.assume(Imp(st.pc, env.evalBool(sa.Clause.Expr)))
@@ -929,6 +937,14 @@ func (e *Exec) appendOp(ins ssa.Instruction, c *ssa.CallCommon, args []Value, st
 		st.mems[lf.key] = m
 	}
 	return SliceV{Ptr: resPtr, Len: newLen, Cap: resCap, Elem: s.Elem}
+}
+
+func isSpecialKey(key string) bool {
+	switch key {
+	case "errors.New", "fmt.Errorf", "os.NewSyscallError":
+		return true
+	}
+	return strings.HasPrefix(key, "sync/atomic.")
 }
 
 // specialCall: models of a few runtime/library functions.
